@@ -13,6 +13,7 @@ import (
 	"runtime"
 	"sync"
 	"testing"
+	"time"
 
 	"github.com/cbeuw/Cloak/internal/verifhook"
 	vk "github.com/cbeuw/Cloak/internal/verifkit"
@@ -99,6 +100,9 @@ type c01Case struct {
 	NStream int          `json:"streams"`
 	Sample  *c01Stream   `json:"sample_stream"`
 	Forced  bool         `json:"forced_addconn_interleaving,omitempty"`
+	// PreGarbage: before any stream is opened, this many records of random bytes reach the server on
+	// every connection (used by C11: messages that do not authenticate are dropped without effect)
+	PreGarbage int `json:"garbage_records_first,omitempty"`
 }
 
 var c01Sizes = []int{1, 2, 13, 1000, rigMax - 1, rigMax, rigMax + 1, 3*rigMax + 7}
@@ -175,6 +179,18 @@ func c01Run(t *testing.T, r *vk.Reporter, id string, c *c01Case) (kind, detail s
 		for i := 0; i < first; i++ {
 			g.addConn()
 		}
+		if c.PreGarbage > 0 {
+			for _, pp := range g.pipes {
+				for k := 0; k < c.PreGarbage; k++ {
+					body := make([]byte, 1+rng.IntN(600))
+					for i := range body {
+						body[i] = byte(rng.Uint32())
+					}
+					pp.A.Write(append([]byte{0x17, 3, 3, byte(len(body) >> 8), byte(len(body))}, body...))
+				}
+			}
+			synctest_Wait()
+		}
 		var wg sync.WaitGroup
 		// server side
 		go func() {
@@ -215,7 +231,7 @@ func c01Run(t *testing.T, r *vk.Reporter, id string, c *c01Case) (kind, detail s
 			s := s
 			st, err := g.cli.OpenStream()
 			if err != nil {
-				kind, detail = "open-failed", fmt.Sprintf("OpenStream on a healthy session: %v", err)
+				setV("open-failed", fmt.Sprintf("OpenStream on a healthy session: %v", err))
 				break
 			}
 			wg.Add(2)
@@ -254,7 +270,7 @@ func c01Run(t *testing.T, r *vk.Reporter, id string, c *c01Case) (kind, detail s
 			synctestSettle(g)
 			st, err := g.cli.OpenStream()
 			if err != nil {
-				kind, detail = "open-failed", err.Error()
+				setV("open-failed", err.Error())
 			} else {
 				writeChunks(st, fs.Tag, sum(fs.Up), fs.Up[:1], fs.fail)
 				fired := false
@@ -441,6 +457,25 @@ func TestVerif_C01(t *testing.T) {
 			r.Pass(id)
 		}
 	}
+	// a slow consumer: one stream's application does not read for a while (tens of MiB pile up) while
+	// another stream of the same healthy session keeps exchanging messages; then the slow one reads
+	for i := 0; i < r.Pick(1, 8); i++ {
+		id := fmt.Sprintf("backlog-%d", i)
+		if !r.Mine(id) {
+			continue
+		}
+		cfg := rigCfg{Method: methods[i%4], NumConn: 1 + i%3, Seg: "all"}
+		mib := []int{20, 6, 33, 9}[i%4]
+		r.Case(id, map[string]any{"cfg": cfg, "unread_MiB": mib})
+		k, d := c01Backlog(t, r, id, cfg, mib)
+		r.Distinct("cases", vk.Hash64("backlog", cfg, mib))
+		r.Count("backlog_cases", 1)
+		if k != "" {
+			r.Violation(id, "C01:"+k, fmt.Sprintf("%s; cfg %+v, %d MiB unread on the slow stream", d, cfg, mib), cfg)
+		} else {
+			r.Pass(id)
+		}
+	}
 	// forced interleaving: sends while addConn is between publishing the count and storing the conn
 	for i := 0; i < r.Pick(4, 16); i++ {
 		id := fmt.Sprintf("forced-addconn-%d", i)
@@ -462,4 +497,102 @@ func TestVerif_C01(t *testing.T) {
 			r.Pass(id)
 		}
 	}
+}
+
+// c01Backlog: stream A carries mib MiB that its receiving application does not read yet; stream B
+// must keep working meanwhile (all connections are healthy, nobody closed anything); then A's
+// application reads and must get every byte.
+func c01Backlog(t *testing.T, r *vk.Reporter, id string, cfg rigCfg, mib int) (kind, detail string) {
+	rng := r.Rand("c01b", id)
+	p, leftover := vk.InBubble(t, func() {
+		cfg.Inactivity = 100 * time.Hour
+		g := newRigA(cfg, rng)
+		for i := 0; i < g.nconn(); i++ {
+			g.addConn()
+		}
+		a, err := g.cli.OpenStream()
+		if err != nil {
+			kind, detail = "open-failed", err.Error()
+			return
+		}
+		total := int64(mib) << 20
+		tagA := uint64(0xBAC0000000000001) &^ downBit
+		var failMu sync.Mutex
+		var fails []string
+		fail := func(f string, x ...any) {
+			failMu.Lock()
+			fails = append(fails, fmt.Sprintf(f, x...))
+			failMu.Unlock()
+		}
+		var sizes []int
+		for left := total; left > 0; left -= 65536 {
+			sizes = append(sizes, int(min(left, 65536)))
+		}
+		wdone := false
+		go func() { writeChunks(a, tagA, total, sizes, fail); wdone = true }()
+		sa, err := g.srv.Accept()
+		if err != nil {
+			kind, detail = "harness", err.Error()
+			return
+		}
+		vk.Wait() // everything that can arrive has arrived; nobody reads A
+		if !wdone {
+			kind, detail = "writer-blocked", fmt.Sprintf("the writer of the slow stream is blocked after %d MiB although nothing limits the sender", mib)
+			return
+		}
+		// stream B: 64 request/response exchanges while A's backlog sits unread
+		b, err := g.cli.OpenStream()
+		if err != nil {
+			kind, detail = "open-failed", "OpenStream while another stream has an unread backlog: "+err.Error()
+			return
+		}
+		okB := 0
+		go func() {
+			sb, err := g.srv.Accept()
+			if err != nil {
+				return
+			}
+			io.Copy(sb, sb)
+		}()
+		go func() {
+			for k := 0; k < 64; k++ {
+				msg := vk.Datagram(77, uint32(k), 200+k)
+				if _, err := b.Write(msg); err != nil {
+					return
+				}
+				got := make([]byte, len(msg))
+				if _, err := io.ReadFull(b, got); err != nil || string(got) != string(msg) {
+					return
+				}
+				okB++
+			}
+		}()
+		vk.Wait()
+		if okB != 64 {
+			kind, detail = "session-stalled", fmt.Sprintf("while %d MiB sat unread on one stream, another stream of the same healthy session completed only %d of 64 echo exchanges and is now stuck", mib, okB)
+			return
+		}
+		// now the slow application reads
+		var got int64
+		var mu sync.Mutex
+		go verifyRead(sa, tagA, total, 0, rand.New(rand.NewPCG(5, 5)), &got, &mu, fail)
+		vk.Wait()
+		mu.Lock()
+		gg := got
+		mu.Unlock()
+		failMu.Lock()
+		if len(fails) > 0 {
+			kind, detail = "wrong-bytes", fails[0]
+		} else if gg != total {
+			kind, detail = "lost-bytes", fmt.Sprintf("the slow application finally read %d of %d bytes; nothing is in flight", gg, total)
+		}
+		failMu.Unlock()
+		r.Count("bytes_checked", gg)
+		g.closeAll()
+		vk.Wait()
+	})
+	if p != nil && !leftover && kind == "" {
+		kind, detail = "panic", fmt.Sprint(p)
+	}
+	return
 }
